@@ -244,6 +244,7 @@ type Engine struct {
 	maxDecisions   int
 
 	solo    soloEnv
+	stuck   bool // some thread can never be joined (blocked inside tengo for good)
 	pending []logEntry
 	nViol   int
 	late []lateItem
@@ -343,6 +344,7 @@ func NewEngine(p *plan.Plan) *Engine {
 }
 
 func (e *Engine) KeepTrace(b bool) { e.keepTrace = b }
+func (e *Engine) Stuck() bool      { return e.stuck }
 func (e *Engine) Trace() []string  { return e.trace }
 
 // logf records an event. While simulated threads exist the controller must not
@@ -423,6 +425,17 @@ func (e *Engine) RunTasks() {
 	raceDisable()
 	e.loop()
 	raceEnable()
+	if e.stuck {
+		// no join is possible; report what the controller knows and leave the
+		// bubble (the worker process is replaced afterwards)
+		e.active.Store(false)
+		cur.Store(nil)
+		e.flushLog()
+		e.Stats.Decisions = e.decisions
+		e.Stats.SwitchSig = e.switchSig
+		e.Stats.Threads = len(e.threads)
+		return
+	}
 	// ordinary (synchronising) join: the controller now happens-after every thread
 	for _, t := range e.tasks {
 		<-t.doneCh
@@ -1239,7 +1252,13 @@ func (e *Engine) teardown() {
 			if allTasksDone {
 				break
 			}
-			e.Fatal = "teardown: threads blocked inside tengo: " + e.describeThreads()
+			// threads are blocked inside tengo and nothing can wake them: the episode
+			// cannot be joined. If the loop has already reported the deadlock this is
+			// the violation itself, otherwise it is a simulator problem.
+			e.stuck = true
+			if e.nViol == 0 {
+				e.Fatal = "teardown: threads blocked inside tengo: " + e.describeThreads()
+			}
 			break
 		}
 	}
